@@ -51,6 +51,10 @@ class Harness:
                     st.open()
                     try:
                         for g, tok in script:
+                            if g < 0:            # close and re-open the writer's file between two stores (append mode)
+                                st.close()
+                                st.open()
+                                continue
                             w.event(op="store_begin", g=g, t=tok)
                             try:
                                 st[g] = text_of(tok)
@@ -91,7 +95,7 @@ class Harness:
             st0.reader_only = True
             with st0:
                 w.event(op="iter", ts=[token_of(x) for x in st0])
-                ids = sorted(set(g for sc in scen["writers"] for g, _ in sc) | {0, 7})
+                ids = sorted(set(g for sc in scen["writers"] for g, _ in sc if g >= 0) | {0, 7})
                 for k, g in enumerate(ids):
                     w.event(op="read_begin", r=9000 + k, g=g)
                     try:
@@ -134,6 +138,7 @@ def scenarios(rnd, quick):
         dict(writers=[[(3, 1)], [(1, 2)]], readers=[[3, 1, 0]], presize=5),                  # pre-sized index, gaps stay
         dict(writers=[[(5, 1), (0, 2)]], readers=[[5, 4]]),                                  # ids above a gap
         dict(writers=[[(1, 1), (1, 2)], [(0, 3)]], readers=[[1]]),                           # the same writer stores twice
+        dict(writers=[[(0, 1), (-1, 0), (2, 2), (-1, 0), (1, 3)], [(3, 4)]], readers=[[0, 2, 1]]),   # close / re-open between stores
     ]
     for _ in range(3 if quick else 20):
         nw = rnd.randint(1, 3)
